@@ -59,22 +59,23 @@ Section Vocabulary.
     | None :: r => option_map S (find_name n r)
     end.
 
-  (* a step up to: line numbers, paths, the callee sub-tree, ALit/ARun flags (all of these are covered by the content
-     of the node or irrelevant for the plain value) *)
+  (* a step up to: line numbers, the callee sub-tree, ALit/ARun flags (covered by the content of the node or irrelevant
+     for the plain value).  The paths of dds.keep / dds.load (literals of the text) are part of the skeleton: they
+     matter for the plain meaning of programs with loads (SoundnessLoadA.v). *)
   Inductive sk :=
   | KCall (args : list expr)
   | KRef (exec : bool)
   | KApply (target : option nat)
-  | KKeep (pos : list expr) (kw : list (bytes * expr))
-  | KLoad.
+  | KKeep (path : bytes) (pos : list expr) (kw : list (bytes * expr))
+  | KLoad (path : bytes).
 
   Definition skel_step (cs : list (option fn)) (s : step) : sk :=
     match s with
     | SCall _ _ _ args => KCall args
     | SRef _ _ ex => KRef ex
     | SApply g => KApply (find_name (fn_name g) cs)
-    | SKeep _ _ _ _ pos kw => KKeep (map fst pos) (map (fun nk => (fst nk, fst (snd nk))) kw)
-    | SLoad _ => KLoad
+    | SKeep _ _ p _ pos kw => KKeep p (map fst pos) (map (fun nk => (fst nk, fst (snd nk))) kw)
+    | SLoad p => KLoad p
     end.
   Fixpoint skel_lsteps (cs : list (option fn)) (l : list step) : list sk :=
     match l with [] => [] | s :: r => skel_step cs s :: skel_lsteps (cs ++ acallee s) r end.
@@ -85,8 +86,9 @@ Section Vocabulary.
   Definition body_vars (b : body) : list (bytes * pyval) := match b with Body vars _ _ => vars end.
   Definition first_steps (f : fn) : option (list step) := option_map body_steps (first_body f).
 
+  (* the data_function decorator line is part of inspect.getsource(f): the text determines the decorator path too *)
   Definition skel (f : fn) :=
-    (fn_tag f, fn_raises f, fn_params f, fn_is_class f, option_map (skel_lsteps []) (first_steps f)).
+    (fn_tag f, fn_raises f, fn_params f, fn_is_class f, fn_annot f, option_map (skel_lsteps []) (first_steps f)).
 
   (* ---------------------------------------------------------------------------------------------------------------- *)
   (* 3. local well-formedness                                                                                         *)
